@@ -120,6 +120,9 @@ MUTANTS = [
     M('sema:cast:node-dropped', 'sema', ['C08'], 'expr_to_asg_texpr', 'Some(asg::Cast::new(expr.unwrap(), typ).to_texpr())', 'Some(expr.unwrap())'),
     M('sema:operand:indexed-bit-accepted', 'sema', ['C13'], 'gate_operand_to_asg_texpr', 'if !matches!(typ, Type::QubitArray(_)) {', 'if !matches!(typ, Type::QubitArray(_) | Type::BitArray(..)) {'),
     M('sema:assign:const-element-not-reported', 'sema', ['C13'], 'assignment_stmt_to_asg_stmt', 'matches!(typ, Type::BitArray(_, IsConst::True))', 'false'),
+    M('sema:block:break-statements-dropped', 'sema', ['C06'], 'block_expr_to_asg_stmt_list', '.filter_map(|syn_stmt| stmt_to_asg_stmt(syn_stmt, context))', '.filter_map(|syn_stmt| { let r_ = stmt_to_asg_stmt(syn_stmt, context); if let Some(asg::Stmt::Break) = r_ { None } else { r_ } })'),
+    M('sema:while:body-dropped', 'sema', ['C06'], 'stmt_to_asg_stmt', 'Some(asg::While::new(condition.unwrap(), loop_body).to_stmt())', 'Some(asg::While::new(condition.unwrap(), asg::Block::new(Vec::new())).to_stmt())'),
+    M('sema:if:else-is-then', 'sema', ['C06'], 'stmt_to_asg_stmt', 'Some(asg::If::new(condition.unwrap(), then_branch, else_branch).to_stmt())', 'Some(asg::If::new(condition.unwrap(), then_branch.clone(), else_branch.map(|_b| then_branch)).to_stmt())'),
     # ---- PARSER marker discipline
     M('parser:marker:complete-wrong-slot', 'parser', ['C01', 'C02'], 'Marker::complete', 'let idx = self.pos as usize;', 'let idx = (self.pos as usize) + 1;'),
     M('parser:marker:abandon-always-pops', 'parser', ['C01', 'C02'], 'Marker::abandon', 'if idx == p.events.len() - 1 {', 'if idx <= p.events.len() - 1 {'),
@@ -137,6 +140,7 @@ MUTANTS = [
     M('parser:process:tombstone-entered', 'parser', ['C02'], 'process', 'if kind != TOMBSTONE {', 'if true {'),
     M('parser:complete:two-finish-events', 'parser', ['C02', 'C01'], 'Marker::complete', 'p.push_event(Event::Finish);', 'p.push_event(Event::Finish); p.push_event(Event::Finish);'),
     M('parser:index_expr:swallows-all-index-operators', 'parser', ['C05'], 'index_expr', '    index_operator(p);\n', '    while p.at(T![\'[\']) && !p.at(EOF) {\n        index_operator(p);\n    }\n'),
+    M('parser:if_stmt:else-if-continues-the-node', 'parser', ['C05'], 'if_stmt', '            let m = p.start();\n            if_stmt(p, m);\n', '            return if_stmt(p, m);\n'),
     # ---- LEX extents
     M('lex:line_comment:stops-at-space', 'lex', ['C15', 'C14'], "Cursor<'_>::line_comment", "{ c != '\\n' });", "{ c != '\\n' && c != ' ' });"),
     M('lex:eat_identifier:start-test-inverted', 'lex', ['C15'], "Cursor<'_>::eat_identifier", 'if !is_id_start(self.first()) {', 'if is_id_start(self.first()) {'),
